@@ -99,3 +99,9 @@ func VerifH_C18_tg_context() {
 	vapi.Assert("no-goroutine-left-blocked", n == 0)
 	pcancel()
 }
+
+//verif:harness prop=C18 tier=thorough replay=interp go=sched preempt=5 require=stopped,rejected,added bounds="as VerifH_C18_tg_stop with ≤5 delays"
+func VerifH_C18_tg_stop_deep() { VerifH_C18_tg_stop() }
+
+//verif:harness prop=C18 tier=thorough replay=interp go=sched preempt=5 require=cancelled-by-stop,cancelled-by-caller,rejected bounds="as VerifH_C18_tg_context with ≤5 delays"
+func VerifH_C18_tg_context_deep() { VerifH_C18_tg_context() }
